@@ -22,6 +22,7 @@
 #include <sys/prctl.h>
 #include <sys/socket.h>
 #include <sys/stat.h>
+#include <sys/resource.h>
 #include <sys/syscall.h>
 #include <sys/types.h>
 #include <sys/un.h>
@@ -397,6 +398,9 @@ int main(int argc, char **argv) {
         else if (!strcmp(tok[0], "umask")) umask(strtol(tok[1], NULL, 8));
         else if (!strcmp(tok[0], "sigmask")) { sigset_t s; sigemptyset(&s); sigaddset(&s, atoi(tok[1])); sigprocmask(SIG_BLOCK, &s, NULL); }
         else if (!strcmp(tok[0], "sighandler")) { struct sigaction sa; memset(&sa, 0, sizeof sa); sa.sa_handler = handler_dummy; sigaction(atoi(tok[1]), &sa, NULL); }
+        else if (!strcmp(tok[0], "openfds")) { /* occupy N descriptors (close-on-exec), so that whatever the library opens gets a number above N */
+            struct rlimit rl; getrlimit(RLIMIT_NOFILE, &rl); if (rl.rlim_cur < (rlim_t)atol(tok[1]) + 64) { rl.rlim_cur = (rlim_t)atol(tok[1]) + 64; if (rl.rlim_max < rl.rlim_cur) rl.rlim_max = rl.rlim_cur; setrlimit(RLIMIT_NOFILE, &rl); }
+            for (long i = 0; i < atol(tok[1]); i++) if (open("/dev/null", O_RDONLY | O_CLOEXEC) < 0) { perror("openfds"); break; } }
         else if (!strcmp(tok[0], "openfd")) { int fd = open("/dev/null", O_RDONLY | (atoi(tok[1]) ? O_CLOEXEC : 0)); (void)fd; }
         else if (!strcmp(tok[0], "chdir")) { char *p = mkstr(tok[1]); if (chdir(p)) perror("chdir"); free(p); }
         else if (!strcmp(tok[0], "setresuid")) { open_up_workdir(); if (setresuid(atol(tok[1]), atol(tok[2]), atol(tok[3]))) perror("setresuid"); }
